@@ -76,8 +76,8 @@ def discharge(ob, timeout_s=10.0, use_fallbacks=True):
     t0 = time.time()
     if ob.expect == 'sat':
         # cover / canary: the hypotheses must be satisfiable
-        for mbqi in (False, True):
-            s = _solver(timeout_s * 1000, mbqi)
+        for mbqi in (True, False):
+            s = _solver(min(timeout_s, 3.0) * 1000, mbqi)
             s.add(*ob.hyps)
             r = s.check()
             if r == z3.sat:
